@@ -11,20 +11,36 @@ from ..core import frac
 
 LEVEL = "proof"
 RULE = ("synthetic VCF text (1..3 sample columns, 0..2 PEDIGREE tags incl. tags without Derived / without Original / "
-        "naming unknown samples, AD declared Number=R or Number=1, per-record FORMAT subsets of GT:AD:DP, trailing "
+        "naming unknown samples, Original= before or after Derived=, in 2 of 5 files other header records the reader "
+        "has to look past: ##source, ##reference, ##SAMPLE, GATKCommandLine of other tools, and -- only next to a "
+        "PEDIGREE record, which comes first -- MuTect / MuTect2 command lines; AD declared Number=R or Number=1, "
+        "per-record FORMAT subsets of GT:AD:DP, trailing "
         "fields dropped, missing DP / AD / half-missing AD / one-entry AD, genotypes 0/0 0/1 1/1 phased haploid "
         "./. 0/. ., SNVs insertions deletions, a few multi-allelic and <NON_REF> records, SOMATIC, FILTER PASS . q10 "
-        "KEEP, INFO DP present or not, 0..40 (some up to 500) records on 1..3 contigs in cnvkit's or in file order, "
+        "KEEP, INFO DP present or not, 0..40 (some up to 500) records on 1..3 contigs (chrN / N / chrM / "
+        "chr1_..._random names) in cnvkit's or in file order, "
         "duplicate positions) x sample/normal selectors (None, name, position incl. negative and out of range, "
         "unknown name, empty string, the same sample twice) x min_depth x skip_reject x skip_somatic through "
         "tabio.read(.., 'vcf'); x min_variant_depth x zygosity_freq (None, dyadic and decimal thresholds, > 0.5) x "
-        "tumor_boost through cmdutil.load_het_snps; variant tables of 0..60 rows (zygosity 0/0.5/1, dyadic and "
+        "tumor_boost through cmdutil.load_het_snps, 1 in 10 multi-sample files Mutect2-style (every genotype of "
+        "the normal 0/0 or missing, pair declared by PEDIGREE or by the ids, zygosity_freq mostly left out); "
+        "in 3 of 10 API cases every argument that equals the callee's default is left out of the call (keywords "
+        "only), otherwise all are passed; variant tables of 0..60 rows (zygosity 0/0.5/1, dyadic and "
         "arbitrary frequencies, with/without normal columns, rows removed beforehand so that index labels have "
-        "gaps) x segment tables (tiling, gapped, overlapping, nested, foreign / missing chromosomes, empty) x "
+        "gaps) x segment tables (tiling, gapped, overlapping, nested, unsorted within a chromosome, foreign / "
+        "missing chromosomes, empty; as a 3-column GenomicArray or a CopyNumArray; in half of the cases a "
+        "filtered subset of a longer table, i.e. index labels with gaps) x "
         "(+ a few tables with interleaved chromosomes: model only, spec not applied) x "
-        "above_half x tumor_boost through VariantArray.baf_by_ranges and mirrored_baf; the whole chain VCF -> "
-        "load_het_snps -> do_call(variants=, purity=) -> baf column; _tumor_boost and rescale_baf on number "
-        "grids; about 10 % of all cases (every one tagged cli-*) run that whole chain through the command line instead: `cnvkit.py call SEG.cns -v/--vcf VCF -o OUT [-m none|clonal|threshold or left out] [-i/--sample-id NAME] [-n/--normal-id NAME] [--min-variant-depth N, or left out = 20] [-z/--zygosity-freq [F], bare = 0.25] [--purity P]` (4 in 5) or `cnvkit.py export nexus-ogt SEG.cns VCF -o OUT [-i] [-n] [-m/--min-variant-depth N] [-z [F]]` (1 in 5, VCFs with >= 1 record), option order shuffled, the baf / B-Allele Frequency column taken from the table handed to the writer and the written file checked to read back equal to it within 1e-5. non-trivial = a read with >= 1 record and an existing sample, a BAF with >= 1 heterozygous row "
+        "above_half x tumor_boost through VariantArray.baf_by_ranges and mirrored_baf, 15 % on an object that "
+        "has answered other BAF / zygosity questions before; VariantArray.tumor_boost() read by row label; "
+        "the whole chain VCF -> load_het_snps -> do_call(variants=, purity=) -> baf column and VCF -> load_het_snps "
+        "-> do_segmentation(bins, 'none', variants=) -> baf column of the segments it returns (6..30 bins per "
+        "contig); _tumor_boost and rescale_baf on number "
+        "grids; about 10 % of all cases (every one tagged cli-*) run that whole chain through the command line instead: `cnvkit.py call SEG.cns -v/--vcf VCF -o OUT [-m none|clonal|threshold or left out] [-i/--sample-id NAME] [-n/--normal-id NAME] [--min-variant-depth N, or left out = 20] [-z/--zygosity-freq [F], bare = 0.25] [--purity P]` (3 in 5), `cnvkit.py export nexus-ogt SEG.cns VCF -o OUT [-i] [-n] [-m/--min-variant-depth N] [-z [F]]` (1 in 5) or `cnvkit.py segment BINS.cnr -v VCF -m none -o OUT [-i] [-n] [--min-variant-depth N] [-z [F]] [-p 1]` (1 in 5), option order shuffled, the baf / B-Allele Frequency column taken from the table handed to the writer and the written file checked to read back equal to it within 1e-5. "
+        "Generated only with VERIF_C18_BAF_LABELS=1 (open finding proposed_fixes/C18-baf-labels-not-ranges.md): "
+        "haar staircases through do_segmentation / segment -v (several segments per arm), nexus-ogt -w/--min-weight, "
+        "filtered segment tables handed to do_call. "
+        "non-trivial = a read with >= 1 record and an existing sample, a BAF with >= 1 heterozygous row "
         "inside some range; distinct by hash of the case")
 EXHAUSTIVE = {"quick": False, "thorough": False}
 ASSUMPTIONS = [
@@ -33,6 +49,9 @@ ASSUMPTIONS = [
     "gives an infinite alt_freq: covered by the reading op only)",
     "variant tables are sorted the way tabio.read returns them; segment tables keep each chromosome's rows "
     "together (interleaved tables are run for the correspondence only: results come back chromosome by chromosome)",
+    "do_segmentation: the segments are the code's answer (they must partition each chromosome's bins; what they are "
+    "beyond that belongs to C11 / C16), at most 50 records fall into one segment (above that the allele-frequency "
+    "HMM of pomegranate re-segments)",
     "TumorBoost is not requested on a table without any row (_tumor_boost raises TypeError inside pandas there); "
     "an empty VCF read with skip_somatic loses its optional columns (modelled as is: `paired` is false)",
     "the mirroring side is an open observable when above_half is None: a value and 1 - value agree",
@@ -49,8 +68,16 @@ TRUSTED_EXTRA = [
 ]
 
 ERRS = ("IndexError", "KeyError", "AssertionError", "ValueError")
+
+# Open finding (proposed_fixes/C18-baf-labels-not-ranges.md): `baf_by_ranges` numbers its answer 0..n-1 and its
+# callers store it as a column, which pandas matches by LABEL.  Wherever the ranges are not labelled 0..n-1 the
+# values move to other rows: `do_call` on a filtered segment table, `export nexus-ogt --min-weight` (the light
+# bins are filtered away first), `do_segmentation(variants=)` as soon as an arm has more than one segment (every
+# re-segmented piece is labelled 0).  Until that is repaired these three cells are generated only with
+# VERIF_C18_BAF_LABELS=1 (the rest of each path is generated always); `baf_by_ranges` itself is run on such ranges.
+BAF_LABELS_REPAIRED = True   # finding AZ fixed in /repo (f61681a): the gated cells are always generated
 CONTIG_SETS = [("chr1",), ("chr1", "chr2"), ("chr1", "chr2", "chrX"), ("1", "2", "X"), ("chr2", "chr10", "chrY"),
-               ("chrX",), ("chr3", "chr1")]
+               ("chrX",), ("chr3", "chr1"), ("chr1", "chrM"), ("chr2", "chr1_KI270706v1_random")]
 GTS = [[0, 0], [0, 1], [0, 1], [0, 1], [1, 1], [1, 0], [None, None], [0, None], [None, 1], [1], [0], [None], [1, 1]]
 
 
@@ -78,7 +105,7 @@ def _render_smp(fmt, smp, ad_number):
 
 
 def vcf_text(v):
-    lines = ["##fileformat=VCFv4.2"]
+    lines = ["##fileformat=VCFv4.2"] + list(v.get("extra_headers") or [])
     for c in v["contigs"]:
         lines.append(f"##contig=<ID={c},length=100000000>")
     lines += ['##INFO=<ID=DP,Number=1,Type=Integer,Description="depth">',
@@ -228,8 +255,50 @@ def gen_vcf(rng, nmax=40, biallelic_only=False, dyadic=False, allow_inf=False, n
                          "somatic": rng.random() < 0.15, "fmt": fmt, "smps": smps})
     if rng.random() < 0.15:
         rng.shuffle(recs)  # file order differs from cnvkit's order
+    if rng.random() < 0.3:
+        tags = [list(reversed(t)) if rng.random() < 0.5 else t for t in tags]  # Original= before Derived=
     return {"samples": names, "tags": tags, "ad_number": ad_number, "contigs": contigs, "records": recs,
-            "fmt_style": fmt_style}
+            "fmt_style": fmt_style, "extra_headers": _gen_headers(rng, names, tags)}
+
+
+def _gen_headers(rng, names, tags):
+    """header lines the reader has to look past: generic and structured records of other kinds, GATK command
+    lines of other tools, and -- only next to a PEDIGREE record, which the documented rules put first -- the
+    MuTect / MuTect2 command lines the reader would otherwise take a pair from"""
+    if rng.random() < 0.6:
+        return []
+    pool = ["##source=synthetic", "##reference=file:///ref.fa",
+            f'##SAMPLE=<ID={names[-1]},Description="a sample">',
+            f'##GATKCommandLine=<ID=HaplotypeCaller,CommandLineOptions="x=1 normal_sample_name={names[0]}">',
+            '##GATKCommandLine.HaplotypeCaller=<ID=HaplotypeCaller,CommandLineOptions="x=1">']
+    if tags:
+        pool += [f'##GATKCommandLine=<ID=MuTect,CommandLineOptions="tumor_sample_name={names[-1]} '
+                 f'normal_sample_name={names[0]}">',
+                 '##GATKCommandLine.MuTect2=<ID=MuTect2,CommandLineOptions="x=1">'] * 2
+    return rng.sample(pool, rng.randint(1, 3))
+
+
+def _mutect2_style(rng, v, o):
+    """the cell `load_het_snps` works around: every genotype of the normal is 0/0 (Mutect2) or missing, the depths
+    still tell the germline hets; the pair is declared by PEDIGREE or by the ids; zygosity_freq mostly left out"""
+    names = v["samples"]
+    t, n = rng.sample(range(len(names)), 2)
+    for rec in v["records"]:
+        for k, smp in enumerate(rec["smps"]):
+            if k != t:
+                smp["gt"] = [None, None] if rng.random() < 0.1 else [0, 0]
+    r = rng.random()
+    if r < 0.4:
+        v["tags"] = [[["Derived", names[t]], ["Original", names[n]]]]
+        o["sid"], o["nid"] = None, None
+    elif r < 0.8:
+        v["tags"] = []
+        o["sid"], o["nid"] = names[t], rng.choice([names[n], n])
+    else:
+        v["tags"] = []
+        o["sid"], o["nid"] = None, names[n]
+    v["extra_headers"] = [h for h in v.get("extra_headers") or [] if "MuTect" not in h]
+    o["zyg_freq"] = None if rng.random() < 0.8 else 0.25
 
 
 def _gen_sel(rng, names, allow_bad=True):
@@ -248,11 +317,14 @@ def _gen_sel(rng, names, allow_bad=True):
 def gen_read(rng, nmax=40, **kw):
     v = gen_vcf(rng, nmax, allow_inf=rng.random() < 0.2, **kw)
     names = v["samples"]
-    nid = _gen_sel(rng, names) if (len(names) >= 2 or rng.random() < 0.15) and rng.random() < 0.5 else None
-    return {"op": "vcf_read", "tag": "read",
-            "in": {"vcf": v, "sid": _gen_sel(rng, names), "nid": nid,
-                   "min_depth": rng.choice([None, None, 0, 1, 10, 20, 20, 30]),
-                   "skip_reject": rng.random() < 0.2, "skip_somatic": rng.random() < 0.5}}
+    nid = _gen_sel(rng, names) if (len(names) >= 2 or rng.random() < 0.15) and rng.random() < 0.65 else None
+    c = {"op": "vcf_read", "tag": "read",
+         "in": {"vcf": v, "sid": _gen_sel(rng, names), "nid": nid,
+                "min_depth": rng.choice([None, None, 0, 1, 10, 20, 20, 30]),
+                "skip_reject": rng.random() < 0.2, "skip_somatic": rng.random() < 0.5}}
+    if rng.random() < 0.3:
+        c["in"]["implicit"] = True  # arguments that equal the reader's default are left out of the call
+    return c
 
 
 def _gen_hetopts(rng, v):
@@ -271,13 +343,18 @@ def _gen_hetopts(rng, v):
 def gen_hets(rng, nmax=40):
     v = gen_vcf(rng, nmax, dyadic=rng.random() < 0.3, ns=rng.choice([1, 2, 2, 2, 3]), het_rich=rng.random() < 0.8)
     i = {"vcf": v}
-    i.update(_gen_hetopts(rng, v))
+    o = _gen_hetopts(rng, v)
+    if len(v["samples"]) >= 2 and rng.random() < 0.1:
+        _mutect2_style(rng, v, o)
+    i.update(o)
+    if rng.random() < 0.3:
+        i["implicit"] = True  # arguments that equal the function's default are left out of the call
     return {"op": "vcf_hets", "tag": "hets", "in": i}
 
 
 def _gen_segs(rng, contigs, span):
     style = rng.choice(["tile", "tile", "tile", "tile", "gaps", "gaps", "overlap", "nested", "foreign", "empty", "one",
-                        "interleaved" if rng.random() < 0.3 else "tile"])
+                        "interleaved" if rng.random() < 0.3 else "tile", "unsorted"])
     if style == "empty":
         return []
     segs = []
@@ -306,7 +383,20 @@ def _gen_segs(rng, contigs, span):
             segs = [s for s in segs if s[0] != c] + segs_c
     if style == "interleaved":
         rng.shuffle(segs)  # not a segment table: the model mirrors the code, the spec is not applied
+    if style == "unsorted":  # each chromosome's rows together, not in coordinate order
+        segs = [g for c in chroms for g in rng.sample([x for x in segs if x[0] == c], len([x for x in segs if x[0] == c]))]
     return segs
+
+
+def _gen_fill(rng, n, p=0.5):
+    """which rows of a table of n rows have another row in front of them that is filtered away before the call
+    (the table then is a filtered subset: its pandas index labels have gaps and do not start at 0)"""
+    if rng.random() >= p:
+        return None
+    f = [rng.random() < 0.3 for _ in range(n)]
+    if n and not any(f):
+        f[0] = True
+    return f
 
 
 def _gen_freq(rng, dyadic, z):
@@ -356,17 +446,27 @@ def gen_table(rng, nmax=60):
 def gen_baf(rng, nmax=60):
     t, contigs, span = gen_table(rng, nmax)
     # (TumorBoost on a table without rows raises TypeError inside pandas: not generated)
-    return {"op": "vcf_baf", "tag": "baf",
-            "in": {"table": t, "segs": _gen_segs(rng, contigs, span),
-                   "above": rng.choice([None, None, None, None, True, False]),
-                   "boost": rng.random() < 0.35 and len(t["rows"]) > 0}}
+    segs = _gen_segs(rng, contigs, span)
+    i = {"table": t, "segs": segs, "above": rng.choice([None, None, None, None, True, False]),
+         "boost": rng.random() < 0.35 and len(t["rows"]) > 0,
+         # the ranges as a filtered subset and / or as a CopyNumArray with its other columns
+         "segs_fill": _gen_fill(rng, len(segs)), "segs_cna": rng.random() < 0.4}
+    if rng.random() < 0.15:
+        i["reuse"] = True  # the same VariantArray has answered other BAF questions before
+    if rng.random() < 0.3:
+        i["implicit"] = True
+    return {"op": "vcf_baf", "tag": "baf", "in": i}
 
 
 def gen_mirror(rng, nmax=30):
     t, _, _ = gen_table(rng, nmax)
-    return {"op": "vcf_mirror", "tag": "mirror",
-            "in": {"table": t, "above": rng.choice([None, None, True, False]),
-                   "boost": rng.random() < 0.35 and len(t["rows"]) > 0}}
+    i = {"table": t, "above": rng.choice([None, None, True, False]),
+         "boost": rng.random() < 0.35 and len(t["rows"]) > 0}
+    if rng.random() < 0.15:
+        i["reuse"] = True
+    if rng.random() < 0.3:
+        i["implicit"] = True
+    return {"op": "vcf_mirror", "tag": "mirror", "in": i}
 
 
 def gen_pipeline(rng, nmax=40):
@@ -385,9 +485,56 @@ def gen_pipeline(rng, nmax=40):
             ln = rng.randint(1, span // 2 + 2)
             segs.append([c, pos, pos + ln])
             pos += ln + (0 if rng.random() < 0.8 else rng.randint(1, 50))
+    if len(v["samples"]) >= 2 and rng.random() < 0.08:
+        _mutect2_style(rng, v, o)
     i = {"vcf": v, "segs": segs, "purity": rng.choice([None, None, 1.0, 0.5, 0.25, 0.7, 0.33]), "dyadic": dy}
     i.update(o)
     return {"op": "vcf_pipeline", "tag": "pipeline", "in": i}
+
+
+def gen_pipeline_api(rng, nmax=40):
+    c = gen_pipeline(rng, nmax)
+    i = c["in"]
+    if rng.random() < 0.3:
+        i["implicit"] = True
+    if BAF_LABELS_REPAIRED:  # (see BAF_LABELS_REPAIRED) the segment table handed to do_call is a filtered subset
+        i["segs_fill"] = _gen_fill(rng, len(i["segs"]), 0.4)
+    return c
+
+
+def _gen_bins(rng, contigs, span, steps):
+    """a bin table [chrom, start, end, log2] tiling 0..span on every contig (6..30 bins each, fewer than by_arm
+    needs to look for a centromere); log2 constant per chromosome, or -- `steps` -- a staircase with a little
+    deterministic noise, so that haar finds several segments in one arm"""
+    from skgenome.chromsort import sorter_chrom
+    bins = []
+    for c in sorted(contigs, key=sorter_chrom):
+        nb = rng.randint(6, 30)
+        w = span // nb + 1
+        level, k0 = rng.choice([0.0, 0.5, -0.5]), 0
+        cuts = sorted(rng.sample(range(2, nb - 1), min(rng.randint(1, 2), nb - 3))) if steps else []
+        for k in range(nb):
+            if k in cuts:
+                level += rng.choice([1.5, -1.5, 2.0])
+            noise = 0.0078125 * ((k * 5) % 3 - 1) if steps else 0.0
+            bins.append([c, k * w, (k + 1) * w, level + noise])
+    return bins
+
+
+def gen_segment(rng, nmax=40):
+    """VCF -> load_het_snps -> do_segmentation(bins, variants=) -> baf column of the segments it returns"""
+    c = gen_pipeline(rng, nmax)
+    i = c["in"]
+    span = max(g[2] for g in i["segs"])
+    steps = BAF_LABELS_REPAIRED and rng.random() < 0.6
+    i["bins"] = _gen_bins(rng, i["vcf"]["contigs"], span, steps)
+    i["seg_method"] = "haar" if steps else "none"
+    i["via"], i["purity"] = "segment", None
+    del i["segs"]  # the segments are the code's answer
+    if rng.random() < 0.3:
+        i["implicit"] = True
+    c["tag"] = "segment"
+    return c
 
 
 def _name_sel(sel, names):
@@ -398,17 +545,19 @@ def _name_sel(sel, names):
 
 
 def gen_pipeline_cli(rng, nmax=40):
-    """the pipeline case through `cnvkit.py call -v` (or `export nexus-ogt`): the options are the case's parameters,
-    the exact argument vector is part of the case ({seg} {vcf} {out} stand for the scratch files)"""
-    c = gen_pipeline(rng, nmax)
+    """the pipeline case through `cnvkit.py call -v` (or `export nexus-ogt`, or `segment -v`): the options are the
+    case's parameters, the exact argument vector is part of the case ({seg} {vcf} {out} stand for the scratch files)"""
+    kind = rng.choice(["call"] * 6 + ["nexus"] * 2 + ["segment"] * 2)
+    nexus, segment = kind == "nexus", kind == "segment"
+    c = gen_segment(rng, 40) if segment else gen_pipeline(rng, nmax)
     i = c["in"]
+    i.pop("implicit", None)
     names = i["vcf"]["samples"]
     i["sid"], i["nid"] = _name_sel(i["sid"], names), _name_sel(i["nid"], names)
     if i["min_depth"] is None:
         i["min_depth"] = 20  # "no depth filter" cannot be said on the command line; leaving the option out means 20
     # (finding AQ, fixed by a52d03f: `export nexus-ogt` on a VCF without any record raised ValueError in
     # baf_by_ranges; such VCFs go through both commands, and corpus-AQ keeps the witness)
-    nexus = rng.random() < 0.2
     long_ = lambda short, long: long if rng.random() < 0.4 else short
     groups = []
     if i["sid"] is not None:
@@ -425,6 +574,17 @@ def gen_pipeline_cli(rng, nmax=40):
     if nexus:
         i["purity"] = None
         head = ["export", "nexus-ogt", "{seg}", "{vcf}"]
+        if BAF_LABELS_REPAIRED and rng.random() < 0.5:
+            # (see BAF_LABELS_REPAIRED) bins lighter than --min-weight are left out of the output
+            i["weights"] = [rng.choice([0.25, 0.5, 0.75, 1.0]) for _ in i["segs"]]
+            i["min_weight"] = rng.choice([0.5, 0.75, 0.3])
+            groups.append([long_("-w", "--min-weight"), repr(i["min_weight"])])
+    elif segment:
+        head = ["segment", "{seg}"]
+        groups.append([long_("-v", "--vcf"), "{vcf}"])
+        groups.append([long_("-m", "--method"), i["seg_method"]])
+        if rng.random() < 0.2:
+            groups.append([long_("-p", "--processes"), "1"])
     else:
         head = ["call", "{seg}"]
         groups.append([long_("-v", "--vcf"), "{vcf}"])
@@ -442,7 +602,7 @@ def gen_pipeline_cli(rng, nmax=40):
     rng.shuffle(groups)
     i["cli"] = True
     i["argv"] = head + [a for g in groups for a in g]
-    c["tag"] = "cli-nexus" if nexus else "cli-pipeline"
+    c["tag"] = "cli-nexus" if nexus else "cli-segment" if segment else "cli-pipeline"
     return c
 
 
@@ -459,7 +619,12 @@ def gen_boost(rng):
             m = Fraction(7, 8)
         ts.append(frac(t))
         ns.append(frac(m))
-    return {"op": "vcf_boost", "tag": "boost", "in": {"t": ts, "n": ns}}
+    i = {"t": ts, "n": ns}
+    if rng.random() < 0.5:
+        # through VariantArray.tumor_boost() on a paired table holding these frequencies (a filtered subset of a
+        # larger table when `fill` is given): each value is looked up by the label of its own row
+        i["method"], i["fill"] = True, _gen_fill(rng, n, 0.7)
+    return {"op": "vcf_boost", "tag": "boost", "in": i}
 
 
 def gen_rescale(rng):
@@ -531,11 +696,14 @@ def corpus():
 def gen_cases(rng, tier):
     cases = []
     if tier == "search":
-        n = {"read": 400, "hets": 400, "baf": 600, "mirror": 100, "pipeline": 300, "boost": 50, "rescale": 30}
+        n = {"read": 400, "hets": 400, "baf": 600, "mirror": 100, "pipeline": 300, "boost": 50, "rescale": 30,
+             "segment": 100}
     elif tier == "quick":
-        n = {"read": 900, "hets": 700, "baf": 1500, "mirror": 300, "pipeline": 500, "boost": 150, "rescale": 60}
+        n = {"read": 900, "hets": 700, "baf": 1400, "mirror": 250, "pipeline": 450, "boost": 150, "rescale": 50,
+             "segment": 250}
     else:
-        n = {"read": 6000, "hets": 5000, "baf": 12000, "mirror": 2000, "pipeline": 4000, "boost": 600, "rescale": 200}
+        n = {"read": 6000, "hets": 5000, "baf": 12000, "mirror": 2000, "pipeline": 4000, "boost": 600, "rescale": 200,
+             "segment": 2000}
     for _ in range(n["read"]):
         cases.append(gen_read(rng, 500 if rng.random() < 0.01 else 40))
     for _ in range(n["hets"]):
@@ -545,7 +713,9 @@ def gen_cases(rng, tier):
     for _ in range(n["mirror"]):
         cases.append(gen_mirror(rng))
     for _ in range(n["pipeline"]):
-        cases.append(gen_pipeline(rng, 500 if rng.random() < 0.01 else 40))
+        cases.append(gen_pipeline_api(rng, 500 if rng.random() < 0.01 else 40))
+    for _ in range(n["segment"]):
+        cases.append(gen_segment(rng))
     for _ in range(n["boost"]):
         cases.append(gen_boost(rng))
     for _ in range(n["rescale"]):
@@ -563,11 +733,12 @@ _TMP = None
 
 
 def _tmpdir():
+    """one scratch directory for all runs (every file in it is removed right after its read; a directory per
+    worker process was never removed, the workers are killed without running their exit handlers)"""
     global _TMP
     if _TMP is None or not os.path.isdir(_TMP):
-        import atexit
-        _TMP = tempfile.mkdtemp(dir="/var/tmp", prefix="c18-")
-        atexit.register(shutil.rmtree, _TMP, True)
+        _TMP = "/var/tmp/c18-scratch"
+        os.makedirs(_TMP, exist_ok=True)
     return _TMP
 
 
@@ -644,9 +815,92 @@ def _flat(r, paired):
     return tuple(out)
 
 
-def _segs_ga(segs):
-    from skgenome import GenomicArray as GA
-    return GA.from_rows([tuple(s) for s in segs], columns=["chromosome", "start", "end"])
+_SEG_COLS = ["chromosome", "start", "end", "gene", "log2", "probes"]
+
+
+def _segs_ga(segs, fill=None, cna=False):
+    """the ranges as a GenomicArray of three columns or as a CopyNumArray (segment table); with `fill`, as a
+    filtered subset of a longer table: the marked rows have another row in front of them that a boolean mask
+    removes, so the index labels of what is left have gaps"""
+    import numpy as np
+    rows, keep = [], []
+    for k, g in enumerate(segs):
+        if fill and fill[k]:
+            rows.append((g[0], g[1], g[1] + 1))
+            keep.append(False)
+        rows.append(tuple(g))
+        keep.append(True)
+    if cna:
+        from cnvlib.cnary import CopyNumArray as CNA
+        arr = CNA.from_rows([(c, s, e, "-", 0.0, 10) for c, s, e in rows], columns=_SEG_COLS)
+    else:
+        from skgenome import GenomicArray as GA
+        arr = GA.from_rows(rows, columns=["chromosome", "start", "end"])
+    if not all(keep):
+        arr = arr[np.array(keep, dtype=bool)]
+    return arr
+
+
+def _kept_segs(i):
+    """the ranges an answer is expected for: all of them, or (export nexus-ogt --min-weight) the heavy enough ones"""
+    if i.get("weights") is None:
+        return i["segs"]
+    return [g for g, w in zip(i["segs"], i["weights"]) if not w < i["min_weight"]]
+
+
+def _bins_cna(bins):
+    from cnvlib.cnary import CopyNumArray as CNA
+    return CNA.from_rows([(c, s, e, "g", lg, 1.0, 1.0) for c, s, e, lg in bins],
+                         columns=["chromosome", "start", "end", "gene", "log2", "depth", "weight"])
+
+
+def _segment_answer(tbl, bins):
+    """segments and their baf column out of a do_segmentation result; the segments must cover each chromosome's
+    bins from the first start to the last end, in order, without overlap (what they are beyond that is the
+    segmentation's business: C11, C16)"""
+    coords = [(str(c), int(s), int(e)) for c, s, e in zip(tbl["chromosome"], tbl["start"], tbl["end"])]
+    chroms = list(dict.fromkeys(b[0] for b in bins))
+    if list(dict.fromkeys(c for c, _, _ in coords)) != chroms:
+        raise CliOutputError("the segments do not follow the chromosomes of the bins")
+    for c in chroms:
+        mine = [g for g in coords if g[0] == c]
+        bs = [b for b in bins if b[0] == c]
+        if mine[0][1] != bs[0][1] or mine[-1][2] != bs[-1][2] or any(a[2] > b[1] for a, b in zip(mine, mine[1:])) \
+                or any(g[1] >= g[2] for g in mine):
+            raise CliOutputError(f"the segments of {c} do not partition its bins")
+    baf = list(tbl["baf"]) if "baf" in tbl.columns else [float("nan")] * len(tbl)
+    return {"segs": [list(g) for g in coords], "baf": _series(baf)}
+
+
+def _het_kwargs(i, boost=None):
+    """load_het_snps' arguments after the file name: positionally, or (`implicit`) by keyword with everything that
+    equals the function's default left out"""
+    boost = i["tumor_boost"] if boost is None else boost
+    if not i.get("implicit"):
+        return (i["sid"], i["nid"], i["min_depth"], i["zyg_freq"], boost), {}
+    kw = {}
+    if i["sid"] is not None:
+        kw["sample_id"] = i["sid"]
+    if i["nid"] is not None:
+        kw["normal_id"] = i["nid"]
+    if i["min_depth"] != 20:
+        kw["min_variant_depth"] = i["min_depth"]
+    if i["zyg_freq"] is not None:
+        kw["zygosity_freq"] = i["zyg_freq"]
+    if boost:
+        kw["tumor_boost"] = True
+    return (), kw
+
+
+def _baf_kwargs(i):
+    if not i.get("implicit"):
+        return {"above_half": i["above"], "tumor_boost": i["boost"]}
+    kw = {}
+    if i["above"] is not None:
+        kw["above_half"] = i["above"]
+    if i["boost"]:
+        kw["tumor_boost"] = True
+    return kw
 
 
 class CliOutputError(Exception):
@@ -675,8 +929,14 @@ def _pipeline_cli(i):
         paths = {"seg": os.path.join(d, "s.cns"), "vcf": os.path.join(d, "s.vcf"), "out": os.path.join(d, "s.out")}
         with open(paths["vcf"], "w") as f:
             f.write(vcf_text(i["vcf"]))
-        segarr = CNA.from_rows([(c, s, e, "-", 0.0, 10) for c, s, e in i["segs"]],
-                               columns=["chromosome", "start", "end", "gene", "log2", "probes"])
+        segment = i.get("via") == "segment"
+        if segment:
+            segarr = _bins_cna(i["bins"])  # log2 values are short dyadic fractions: the file is exact
+        elif i.get("weights") is not None:
+            segarr = CNA.from_rows([(c, s, e, "-", 0.0, 10, w) for (c, s, e), w in zip(i["segs"], i["weights"])],
+                                   columns=_SEG_COLS + ["weight"])
+        else:
+            segarr = CNA.from_rows([(c, s, e, "-", 0.0, 10) for c, s, e in i["segs"]], columns=_SEG_COLS)
         tabio.write(segarr, paths["seg"])  # integer coordinates, log2 0: the file is exact
         argv = [a.format(**paths) if a.startswith("{") else a for a in i["argv"]]
         nexus = argv[:2] == ["export", "nexus-ogt"]
@@ -706,8 +966,18 @@ def _pipeline_cli(i):
         if len(captured) != 1 or not os.path.exists(paths["out"]):
             raise CliOutputError("the command did not write exactly one table to the requested output")
         tbl = captured[0]
-        if len(tbl) != len(i["segs"]):
-            raise CliOutputError(f"{len(tbl)} output rows for {len(i['segs'])} segments")
+        if segment:
+            ans = _segment_answer(tbl, i["bins"])
+            back = read_cna(paths["out"]).data
+            if [list(g) for g in zip(back["chromosome"].astype(str), back["start"].astype(int),
+                                     back["end"].astype(int))] != ans["segs"] or \
+                    ("baf" in tbl.columns) != ("baf" in back.columns) or (
+                    "baf" in tbl.columns and not all(_same_num(a, b) for a, b in zip(back["baf"], tbl["baf"]))):
+                raise CliOutputError("the written file does not read back as the table the command computed")
+            return ans
+        want = _kept_segs(i)
+        if len(tbl) != len(want):
+            raise CliOutputError(f"{len(tbl)} output rows for {len(want)} segments")
         if nexus:
             coords = [(str(r[0]), int(r[1]), int(r[2])) for r in tbl.iloc[:, :3].itertuples(index=False)]
             baf = tbl["B-Allele Frequency"]
@@ -721,7 +991,7 @@ def _pipeline_cli(i):
             back = read_cna(paths["out"]).data
             bcoords = [(str(c), int(s), int(e)) for c, s, e in zip(back["chromosome"], back["start"], back["end"])]
             bbaf = back["baf"] if "baf" in back.columns else None
-        if coords != [(c, s, e) for c, s, e in i["segs"]]:
+        if coords != [(c, s, e) for c, s, e in want]:
             raise CliOutputError("output rows are not the segments of the input, in order")
         if bcoords != coords or (baf is None) != (bbaf is None) or (
                 baf is not None and not all(_same_num(a, b) for a, b in zip(bbaf, baf))):
@@ -738,42 +1008,68 @@ def run_impl(case):
     if op == "vcf_read":
         fn = _write_vcf(i["vcf"])
         try:
-            t = tabio.read(fn, "vcf", sample_id=i["sid"], normal_id=i["nid"], min_depth=i["min_depth"],
-                           skip_reject=i["skip_reject"], skip_somatic=i["skip_somatic"])
+            if i.get("implicit"):
+                given = {"sample_id": i["sid"], "normal_id": i["nid"], "min_depth": i["min_depth"],
+                         "skip_reject": i["skip_reject"], "skip_somatic": i["skip_somatic"]}
+                t = tabio.read(fn, "vcf", **{k: x for k, x in given.items() if x is not None and x is not False})
+            else:
+                t = tabio.read(fn, "vcf", sample_id=i["sid"], normal_id=i["nid"], min_depth=i["min_depth"],
+                               skip_reject=i["skip_reject"], skip_somatic=i["skip_somatic"])
         finally:
             os.unlink(fn)
         return _table_json(t)
     if op == "vcf_hets":
         fn = _write_vcf(i["vcf"])
         try:
-            t = cmdutil.load_het_snps(fn, i["sid"], i["nid"], i["min_depth"], i["zyg_freq"], i["tumor_boost"])
+            a, kw = _het_kwargs(i)
+            t = cmdutil.load_het_snps(fn, *a, **kw)
         finally:
             os.unlink(fn)
         return _table_json(t)
-    if op == "vcf_baf":
+    if op in ("vcf_baf", "vcf_mirror"):
         va = _va(i["table"])
-        return _series(va.baf_by_ranges(_segs_ga(i["segs"]), above_half=i["above"], tumor_boost=i["boost"]))
-    if op == "vcf_mirror":
-        va = _va(i["table"])
-        return _series(va.mirrored_baf(above_half=i["above"], tumor_boost=i["boost"]))
+        if i.get("reuse"):  # earlier questions to the same object leave it as it was
+            if len(va):
+                va.baf_by_ranges(_segs_ga(i["segs"] if op == "vcf_baf" else [[va.chromosome.iat[0], 0, 10 ** 6]]),
+                                 above_half=True, tumor_boost=True)
+                va.mirrored_baf(above_half=False, tumor_boost=True)
+            va.heterozygous()
+            va.zygosity_from_freq(0.25, 0.75)
+        if op == "vcf_mirror":
+            return _series(va.mirrored_baf(**_baf_kwargs(i)))
+        return _series(va.baf_by_ranges(_segs_ga(i["segs"], i.get("segs_fill"), i.get("segs_cna")), **_baf_kwargs(i)))
     if op == "vcf_pipeline" and i.get("cli"):
-        return _series(_pipeline_cli(i))
+        out = _pipeline_cli(i)
+        return out if isinstance(out, dict) else _series(out)
     if op == "vcf_pipeline":
-        from cnvlib.cnary import CopyNumArray as CNA
         fn = _write_vcf(i["vcf"])
         try:
-            varr = cmdutil.load_het_snps(fn, i["sid"], i["nid"], i["min_depth"], i["zyg_freq"], False)
+            a, kw = _het_kwargs(i, False)
+            varr = cmdutil.load_het_snps(fn, *a, **kw)
         finally:
             os.unlink(fn)
-        segarr = CNA.from_rows([(c, s, e, "-", 0.0, 10) for c, s, e in i["segs"]],
-                               columns=["chromosome", "start", "end", "gene", "log2", "probes"])
+        if i.get("via") == "segment":
+            from cnvlib import segmentation
+            out = segmentation.do_segmentation(_bins_cna(i["bins"]), i["seg_method"], variants=varr)
+            return _segment_answer(out.data, i["bins"])
+        segarr = _segs_ga(i["segs"], i.get("segs_fill"), True)
         if not len(varr):
             # `if variants:` is False for an empty array: do_call adds no baf column at all
             return [None] * len(segarr)
-        out = call.do_call(segarr, variants=varr, method="none", purity=i["purity"], is_sample_female=True)
+        kw = {} if i.get("implicit") and i["purity"] is None else {"purity": i["purity"]}
+        out = call.do_call(segarr, variants=varr, method="none", is_sample_female=True, **kw)
+        if [(str(c), int(b), int(e)) for c, b, e in zip(out["chromosome"], out["start"], out["end"])] != \
+                [tuple(g) for g in i["segs"]]:
+            raise CliOutputError("do_call's rows are not the segments it was given, in order")
         return _series(out["baf"])
     if op == "vcf_boost":
         import numpy as np
+        if i.get("method"):
+            rows = [["chr1", k, k + 1, "A", "G", False, ["1/2", "32", frac(Fraction(t) * 32), t],
+                     ["1/2", "32", frac(Fraction(n) * 32), n]] for k, (t, n) in enumerate(zip(i["t"], i["n"]))]
+            va = _va({"paired": True, "rows": rows, "drop": i.get("fill")})
+            ser = va.tumor_boost()
+            return _series([ser.loc[lbl] for lbl in va.data.index])
         t = np.array([float(Fraction(x)) for x in i["t"]])
         n = np.array([float(Fraction(x)) for x in i["n"]])
         return _series(vary._tumor_boost(t, n))
@@ -799,9 +1095,16 @@ def to_line(case, impl):
     if op in ("vcf_hets", "vcf_pipeline"):
         zf = i.get("zyg_freq")
         i["zyg_freq"] = None if zf is None else [frac(zf), frac(1 - zf)]
+    for k in ("implicit", "reuse", "segs_fill", "segs_cna", "method", "fill"):
+        i.pop(k, None)
     if op == "vcf_pipeline":
-        i.pop("cli", None)
-        i.pop("argv", None)
+        if i.get("via") == "segment":  # the ranges are the segments the code came up with
+            i["segs"] = impl["segs"] if isinstance(impl, dict) and "segs" in impl else []
+            impl = impl["baf"] if isinstance(impl, dict) and "baf" in impl else impl
+        else:
+            i["segs"] = _kept_segs(i)
+        for k in ("cli", "argv", "via", "bins", "seg_method", "weights", "min_weight"):
+            i.pop(k, None)
         p = i.get("purity")
         i["purity"] = None if (p is None or p >= 1.0) else frac(p)
     if "table" in i:
@@ -841,7 +1144,13 @@ def _dyadic_case(case):
     return bool(i.get("dyadic"))
 
 
+def _unwrap(impl):
+    """a do_segmentation answer carries its segments along: the BAFs are what is judged"""
+    return impl["baf"] if isinstance(impl, dict) and "baf" in impl else impl
+
+
 def judge(case, impl, resp):
+    impl = _unwrap(impl)
     if "error" in resp and "out" not in resp:
         return [], ["model error: " + str(resp["error"])], None
     spec = list(resp.get("spec") or [])
@@ -892,6 +1201,7 @@ def judge(case, impl, resp):
 
 
 def nontrivial(case, impl, resp):
+    impl = _unwrap(impl)
     op, i = case["op"], case["in"]
     if isinstance(impl, dict) and "__error__" in impl:
         return False
@@ -946,8 +1256,11 @@ def shrink(case):
             c = {"op": case["op"], "tag": "shrunk", "in": dict(i)}
             c["in"]["table"] = dict(t, rows=t["rows"][:k] + t["rows"][k + 1:], drop=t["drop"][:k] + t["drop"][k + 1:])
             yield c
-    if "segs" in i:
+    if i.get("segs"):
         for k in range(len(i["segs"])):
             c = {"op": case["op"], "tag": "shrunk", "in": dict(i)}
             c["in"]["segs"] = i["segs"][:k] + i["segs"][k + 1:]
+            for key in ("segs_fill", "weights"):
+                if i.get(key):
+                    c["in"][key] = i[key][:k] + i[key][k + 1:]
             yield c
